@@ -123,6 +123,24 @@ func TestC14RouterDelay(t *testing.T) {
 				}
 			}(s)
 		}
+		// a quarter of the cases restart the router right after the last datagram was
+		// written: what is still waiting out its delay must be forwarded by the new loop
+		restartErr := make(chan error, 1)
+		restarted := false
+		if rapid.IntRange(0, 3).Draw(t, "restart") == 0 {
+			restarted = true
+			c.Label("restart-with-queued")
+			go func() {
+				wg.Wait()
+				if err := wan.Stop(); err != nil {
+					restartErr <- err
+					return
+				}
+				restartErr <- wan.Start()
+			}()
+		} else {
+			restartErr <- nil
+		}
 		type rec struct {
 			s, i int
 			at   time.Time
@@ -145,6 +163,9 @@ func TestC14RouterDelay(t *testing.T) {
 			got = append(got, rec{int(binary.BigEndian.Uint32(buf)), int(binary.BigEndian.Uint32(buf[4:])), at, n, from.String()})
 		}
 		wg.Wait()
+		if err := <-restartErr; err != nil {
+			t.Fatalf("C14: Stop/Start of the router: %v", err)
+		}
 		// nothing more may arrive
 		_ = rcv.SetReadDeadline(time.Now().Add(minDelay + jitter + 3*time.Millisecond))
 		if n, _, err := rcv.ReadFrom(buf); err == nil {
@@ -161,7 +182,10 @@ func TestC14RouterDelay(t *testing.T) {
 				t.Fatalf("C14: datagram %v arrived twice", k)
 			}
 			seen[k] = true
-			if l, ok := last[g.s]; ok && g.i < l {
+			// Stop does not wait for the forwarding loop it cancels, so right after a restart the
+			// old and the new loop can both be forwarding; the statement orders datagrams of a
+			// running router and says nothing about a restart, so order is not judged there
+			if l, ok := last[g.s]; ok && g.i < l && !restarted {
 				t.Fatalf("C14: sender %d's datagram %d arrived after its datagram %d (MinDelay %v, MaxJitter %v)", g.s, g.i, l, minDelay, jitter)
 			}
 			last[g.s] = g.i
